@@ -176,6 +176,11 @@ def unit_sql_fields():
     return ProofUnit("sql.SqlFactory.sql_fields", "sql_fields: one tuple per field in order, name quoted iff keyword, type through the dialect", ["C19"], make, None)
 
 
+# reserved words spot-checked against the vendors' documentation: each word is reserved in the dialects it is listed under and in no other of the four
+KEYWORD_SPOT = {"ANSI": "select table order group year level key user date value", "DB2": "index plan cluster select table order group year comment key user value type label summary",
+                "Transact-SQL": "file index top percent plan select table order group key user", "PL/SQL": "index cluster nowait mode share select table group year level comment date value type hash"}
+
+
 def unit_is_keyword():
     def make(ctx):
         out = []
@@ -189,7 +194,10 @@ def unit_is_keyword():
             def post(ex, st):
                 kws = st.heap[st.ghost["this"].oid]["_keywords"]; low = ex.absfun_s("str_lower", [z3.StringSort()], z3.StringSort())(G(st, "word"))
                 return Sym(BOOL, lift(st.ghost["__result__"]).z == z3.Or(*[low == k for k in sorted(kws)]))
-            out.append({"contract": Contract("sql.AnsiSqlDialect.is_keyword", setup, returns=[Clause(post, "a-name-is-a-keyword-iff-its-lower-case-form-is-in-the-dialect's-keyword-set-(SQL-keywords-are-case-insensitive)", props=["C19"])],
+            def spot(ex, st, d=d):
+                kws = set(st.heap[st.ghost["this"].oid]["_keywords"]); allw = set(" ".join(KEYWORD_SPOT.values()).split()); mine = set(KEYWORD_SPOT[d].split())
+                return Sym(BOOL, z3.BoolVal(mine <= kws and not ((allw - mine) & kws)))
+            out.append({"contract": Contract("sql.AnsiSqlDialect.is_keyword", setup, returns=[Clause(spot, "the-keyword-set-the-constructor-builds-is-this-dialect's:-it-holds-the-dialect's-reserved-words-of-the-spot-list-and-none-reserved-only-elsewhere", props=["C19"]), Clause(post, "a-name-is-a-keyword-iff-its-lower-case-form-is-in-the-dialect's-keyword-set-(SQL-keywords-are-case-insensitive)", props=["C19"])],
                                              raises={}, expect=["return"], n_loops=0, modifies=[]), "label": d})
         return out
     return ProofUnit("sql.is_keyword", "is_keyword of the four dialects: case-insensitive membership in the dialect's keyword set (set built by the real constructor)", ["C19"], make, None, timeout=900)
@@ -277,8 +285,7 @@ def unit_c19_table():
         res.append(sweep("C19/table/a dialect's statement does not depend on statements generated before", shape_cases(), history_check, "bounded",
                          "4 dialects: statement in a fresh process vs after the three other dialects in one process; field names that are keywords in only some dialects", function="sql.SqlFactory", unit="C19.table"))
         # keyword membership, spot-checked against the vendors' reserved-word lists (independent of the tables built by the dialect constructors)
-        SPOT = {"ANSI": "select table order group year level key user date value", "DB2": "index plan cluster select table order group year comment key user value type label summary",
-                "Transact-SQL": "file index top percent plan select table order group key user", "PL/SQL": "index cluster nowait mode share select table group year level comment date value type hash"}
+        SPOT = KEYWORD_SPOT
         WORDS = sorted(set(" ".join(SPOT.values()).split()) | {"customer_id", "surname", "amount"})
         def spot_check(d):
             from cutplace import interface, sql
